@@ -1131,6 +1131,15 @@ class Inliner:
                             own.add(f.name)
                             self.inlined_calls.append(f"<moved> {cq}.{f.name} <- {qualname_of(f)}")
                             changed = True
+                    # class-level aliases of those functions (`__add__ = __radd__ = _absorb`) move with them
+                    for a in rb.node.body:
+                        if isinstance(a, ast.Assign) and isinstance(a.value, ast.Name) and a.value.id in own and all(isinstance(t, ast.Name) and t.id not in own for t in a.targets) \
+                                and any(isinstance(x, ast.FunctionDef) and x.name == a.value.id for x in c.body):
+                            new = clone(a)
+                            _set_module(new, m)
+                            c.body.append(new)
+                            own |= {t.id for t in a.targets}
+                            changed = True
             if changed:
                 relink(m)
                 m._symbols = None
